@@ -358,6 +358,7 @@ func zzNewEnv(initialHeight uint64) *zzEnv {
 	// known sha256 image for the engine
 	_ = new(types.Data).DACommitment()
 	e.cfg = config.Config{}
+	e.cfg.RootDir = zzsym.TempDir() // cache files go here
 	e.cfg.Node.BlockTime.Duration = time.Second
 	e.cfg.Node.LazyBlockInterval.Duration = 60 * time.Second
 	e.cfg.DA.BlockTime.Duration = 6 * time.Second
